@@ -26,7 +26,7 @@ LEAN_MODULES = ["NiftyVerif.Core.Proto", "NiftyVerif.Props.C33"]
 DRIVER = "Driver/C33.lean"
 OBLIGATIONS = ["NiftyVerif.C33." + t for t in (
     "flatten_map₂", "binary_flat", "flatten_broadcast_scalar", "unary_flat", "size_flat", "sum_flat", "max_flat",
-    "min_flat", "vdot_flat", "vdot_flat_complex", "sum_flat_complex", "where_flat", "norm_flat_1", "norm_flat_inf", "norm_flat_2", "slices_moveaxis", "stack_moveaxis",
+    "min_flat", "vdot_flat", "mean_flat", "vdot_flat_complex", "sum_flat_complex", "where_flat", "norm_flat_1", "norm_flat_inf", "norm_flat_2", "slices_moveaxis", "stack_moveaxis",
     "reord_inverse", "smap_eq_vmap", "asFound_none_returns_input", "lscan_eq_scan")]
 RULE = ("pytrees: nested dict/tuple/list, depth<=3, 1-6 leaves of shape () .. 3-D with integer entries; operators: all "
         "binary/unary overloads of Vector with tree/tree, scalar/tree, tree/scalar and mismatching operands; reductions; where; "
@@ -763,7 +763,7 @@ def model_request(case):
     if case["op"] == "cplx":
         return cplx_request(case)
     if case["op"] == "forest":
-        return dict(op="reduce", x=case["trees"][0])
+        return dict(op="mean", trees=case["trees"])
     return {k: v for k, v in case.items() if k != "how"}
 
 
@@ -812,7 +812,14 @@ def run(ctx):
                     ctx.counterexample(c, *r)
                 continue
             if k in ("forest",):
+                from nifty.re.tree_math import forest_math as fm
+                from fractions import Fraction
+                trees = [to_py(t, np.float64) for t in c["trees"]]
+                got = flat(fm.mean(tuple(trees)))
+                exp = [float(Fraction(x)) for x in m.get("flat", [])]
                 ctx.case(c, num_leaves(c["trees"][0]) >= 2)
+                if len(exp) != got.size or not np.allclose(got, exp, rtol=1e-13, atol=1e-13):
+                    ctx.disagree(c, got.tolist(), m, "C33 forest mean vs exact rational mean of the model (class T)")
                 r = oracle(c)
                 if r:
                     ctx.counterexample(c, *r)
